@@ -356,6 +356,13 @@ class AFB2D(Function):
             lo = sfb1d(low, lh, h0_col, h1_col, mode=mode, dim=2)
             hi = sfb1d(hl, hh, h0_col, h1_col, mode=mode, dim=2)
             dx = sfb1d(lo, hi, h0_row, h1_row, mode=mode, dim=3)
+            if mode == 'per' or mode == 'periodization':
+                # Odd inputs were extended by repeating the last sample, so
+                # its gradient belongs to the last sample
+                if dx.shape[-2] > ctx.shape[-2]:
+                    dx[:,:,ctx.shape[-2]-1] += dx[:,:,ctx.shape[-2]]
+                if dx.shape[-1] > ctx.shape[-1]:
+                    dx[:,:,:,ctx.shape[-1]-1] += dx[:,:,:,ctx.shape[-1]]
             if dx.shape[-2] > ctx.shape[-2] and dx.shape[-1] > ctx.shape[-1]:
                 dx = dx[:,:,:ctx.shape[-2], :ctx.shape[-1]]
             elif dx.shape[-2] > ctx.shape[-2]:
@@ -419,6 +426,9 @@ class AFB1D(Function):
 
             # Check for odd input
             if dx.shape[2] > ctx.shape:
+                if mode == 'per' or mode == 'periodization':
+                    # The last sample was repeated in the forward pass
+                    dx[:, :, ctx.shape-1] += dx[:, :, ctx.shape]
                 dx = dx[:, :, :ctx.shape]
 
         return dx, None, None, None, None, None
